@@ -1,6 +1,5 @@
 package sigkit
 
-
 // LabelCMS assigns every byte of a harness-built ContentInfo/SignedData DER a class name
 // (what the byte belongs to), by walking the TLV tree. Classes:
 //
